@@ -324,3 +324,117 @@ Proof.
   intros bs. unfold bits_to_bytes. destruct (pad8_length bs) as [n [H1 H2]].
   rewrite H2. apply bytes_to_bits_pack. exact H1.
 Qed.
+
+Lemma refines_assert_nop : forall p s g, refines s g -> refines (Assert p ;; s) (Nop ;; g).
+Proof.
+  unfold refines. intros p s g H e a b a' He. cbn [emit] in *.
+  destruct (p a); try discriminate.
+  destruct (emit s e a) as [[b2 a2]|] eqn:E2; try discriminate.
+  rewrite (H _ _ _ _ E2). exact He.
+Qed.
+
+(* a constraint of the first description selects the branch of the second *)
+Lemma refines_assert_else : forall p c s x g,
+  (forall a, p a = true -> c a = false) -> refines s g -> refines (Assert p ;; s) (If c x g).
+Proof.
+  unfold refines. intros p c s x g Hc H e a b a' He. cbn [emit] in *.
+  destruct (p a) eqn:P; try discriminate. rewrite (Hc _ P).
+  destruct (emit s e a) as [[b2 a2]|] eqn:E2; try discriminate.
+  cbn [app] in He. rewrite (H _ _ _ _ E2). exact He.
+Qed.
+
+(* ---------------------------------------------------------------- reads stay inside the input *)
+Definition suffix_of (r bs : bits) : Prop := exists u, bs = u ++ r.
+
+Lemma suffix_refl : forall bs, suffix_of bs bs.
+Proof. intros. exists []. reflexivity. Qed.
+Lemma suffix_trans : forall a b c, suffix_of a b -> suffix_of b c -> suffix_of a c.
+Proof. intros a b c [u Hu] [v Hv]. exists (v ++ u). subst. rewrite app_assoc. reflexivity. Qed.
+Lemma suffix_cons : forall x r bs, suffix_of r bs -> suffix_of r (x :: bs).
+Proof. intros x r bs [u Hu]. exists (x :: u). subst. reflexivity. Qed.
+
+Lemma read_u_suffix : forall n bs v r, read_u n bs = Some (v, r) -> suffix_of r bs.
+Proof.
+  induction n; intros bs v r H; cbn [read_u] in H.
+  - inversion H; subst. apply suffix_refl.
+  - destruct bs as [|x bs]; try discriminate.
+    destruct (read_u n bs) as [[v' r']|] eqn:E; try discriminate.
+    inversion H; subst. apply suffix_cons. eauto.
+Qed.
+
+Lemma go_read_suffix : forall n max bs v r, go_read n max bs = Some (v, r) -> suffix_of r bs.
+Proof.
+  unfold go_read. intros n max bs v r H.
+  destruct ((n <=? 0) || (max <? n)).
+  - inversion H; subst. apply suffix_refl.
+  - eapply read_u_suffix; eauto.
+Qed.
+
+Lemma drop_bits_suffix : forall n bs r, drop_bits n bs = Some r -> suffix_of r bs.
+Proof.
+  induction n; intros bs r H; cbn [drop_bits] in H.
+  - inversion H; subst. apply suffix_refl.
+  - destruct bs; try discriminate. apply suffix_cons. eauto.
+Qed.
+
+Lemma go_skip_suffix : forall n bs r, go_skip n bs = Some r -> suffix_of r bs.
+Proof.
+  unfold go_skip. intros n bs r H. destruct (n <=? 0).
+  - inversion H; subst. apply suffix_refl.
+  - eapply drop_bits_suffix; eauto.
+Qed.
+
+Lemma ue_prefix_suffix : forall bs i j r, ue_prefix bs i = Some (j, r) -> suffix_of r bs.
+Proof.
+  induction bs as [|x bs IH]; intros i j r H; cbn [ue_prefix] in H; try discriminate.
+  destruct (negb x && (i <? 32)).
+  - apply suffix_cons. eauto.
+  - inversion H; subst. apply suffix_cons, suffix_refl.
+Qed.
+
+Lemma read_ue_suffix : forall bs v r, read_ue bs = Some (v, r) -> suffix_of r bs.
+Proof.
+  unfold read_ue. intros bs v r H.
+  destruct (ue_prefix bs 0) as [[i r0]|] eqn:E; try discriminate.
+  destruct (read_u (Z.to_nat i) r0) as [[x r1]|] eqn:E1; try discriminate.
+  inversion H; subst. eapply suffix_trans.
+  - eapply read_u_suffix; eauto.
+  - eapply ue_prefix_suffix; eauto.
+Qed.
+
+Lemma read_se_suffix : forall bs v r, read_se bs = Some (v, r) -> suffix_of r bs.
+Proof.
+  unfold read_se. intros bs v r H.
+  destruct (read_ue bs) as [[k r0]|] eqn:E; try discriminate.
+  inversion H; subst. eapply read_ue_suffix; eauto.
+Qed.
+
+(* the decoder consumes a prefix of its input and nothing else: what it leaves is a suffix *)
+Theorem parse_suffix : forall f a bs a' r, parse f a bs = Some (a', r) -> suffix_of r bs.
+Proof.
+  unfold parse.
+  induction f; intros a bs a' r Hp; cbn [parse_with] in Hp.
+  - inversion Hp; subst. apply suffix_refl.
+  - destruct (go_read n max bs) as [[v r0]|] eqn:E; try discriminate.
+    inversion Hp; subst. eapply go_read_suffix; eauto.
+  - destruct (go_read (n a) max bs) as [[v r0]|] eqn:E; try discriminate.
+    inversion Hp; subst. eapply go_read_suffix; eauto.
+  - destruct (read_ue bs) as [[v r0]|] eqn:E; try discriminate.
+    inversion Hp; subst. eapply read_ue_suffix; eauto.
+  - destruct (read_se bs) as [[v r0]|] eqn:E; try discriminate.
+    inversion Hp; subst. eapply read_se_suffix; eauto.
+  - destruct (go_skip n bs) as [r0|] eqn:E; try discriminate.
+    inversion Hp; subst. eapply go_skip_suffix; eauto.
+  - destruct (parse_with read_se f1 a bs) as [[a1 r1]|] eqn:E1; try discriminate.
+    eapply suffix_trans; eauto.
+  - destruct (c a); eauto.
+  - revert Hp. generalize (Z.to_nat (cnt a)) as n. generalize 0 as i.
+    intros i n. revert i a bs.
+    induction n; intros i a bs Hp.
+    + inversion Hp; subst. apply suffix_refl.
+    + destruct (parse_with read_se (body i) a bs) as [[a1 r1]|] eqn:E1; try discriminate.
+      eapply suffix_trans; [eapply IHn; eauto | eapply H; eauto].
+  - inversion Hp; subst. apply suffix_refl.
+  - inversion Hp; subst. apply suffix_refl.
+  - destruct (c a); try discriminate. inversion Hp; subst. apply suffix_refl.
+Qed.
